@@ -5,7 +5,7 @@ from ecdsa.der import encode_sequence, encode_integer,  \
 
 from .cryptomath import getRandomNumber, getRandomPrime,    \
     powMod, numBits, bytesToNumber, invMod,   \
-    secureHash, GMPY2_LOADED, gmpyLoaded
+    secureHash, GMPY2_LOADED, gmpyLoaded, isPrime
 
 from .compat import compatHMAC
 
@@ -49,8 +49,11 @@ class Python_DSAKey(DSAKey):
         key = Python_DSAKey()
         (q, p) = Python_DSAKey.generate_qp(L, N)
 
-        index = getRandomNumber(1, (p-1))
-        g = powMod(index, int((p-1)/q), p)
+        # generator of the subgroup of order q (FIPS 186-4 A.2.1)
+        g = 1
+        while g == 1:
+            index = getRandomNumber(2, (p-1))
+            g = powMod(index, (p-1)//q, p)
         x = getRandomNumber(1, q-1)
         y = powMod(g, x, p)
         if gmpyLoaded or GMPY2_LOADED:
@@ -71,9 +74,12 @@ class Python_DSAKey(DSAKey):
         assert (L, N) in [(1024, 160), (2048, 224), (2048, 256), (3072, 256)]
 
         q = int(getRandomPrime(N))
+        # p = 2*k*q + 1 with exactly L bits, so that q divides p-1
+        low = (1 << (L - 1)) // (2 * q) + 1
+        high = (1 << L) // (2 * q)
         while True:
-            p = int(getRandomPrime(L))
-            if (p-1) % q:
+            p = 2 * int(getRandomNumber(low, high)) * q + 1
+            if numBits(p) == L and isPrime(p):
                 break
         return (q, p)
 
